@@ -6,7 +6,9 @@ the specification on every state and prints every state (= one directive
 sequence, valid or invalid) as a case; a simulation run adds long error-free
 sequences with nested remember/restore.  Every case is rendered into a real
 ``cfiDirectives`` table and evaluated by the real
-``evaluate_cfi_directives`` for every ABI (harness/cfieval/runner.py); the
+``evaluate_cfi_directives`` for every ABI (harness/cfieval/runner.py), with
+the table entries inserted in ascending / descending / shuffled order and
+optionally after a protobuf round trip of the IR; the
 observed yields, copies and exception types are judged by TLC against
 ``CfiRun`` (spec/TraceCfiEval.tla)."""
 import glob
@@ -58,8 +60,17 @@ def brief(case: dict) -> dict:
     return {"id": case.get("id"), "directives": out, "abis": case.get("abis")}
 
 
+def multi_offset(case: dict) -> bool:
+    """Some block carries directives at two or more offsets."""
+    blks = [g["blk"] for g in case["groups"]]
+    return len(blks) != len(set(blks))
+
+
 def collect(rep: Report, tier: str, wd: str, rng: random.Random, dest: str) -> int:
     seen = set()
+    stats = {"multi_offset_cases": 0, "order_asc": 0, "order_desc": 0, "order_shuf": 0,
+             "protobuf_roundtrip": 0}
+    rep.extra["table_insertion_order"] = stats
     n = 0
     part = ""
     with open(dest, "w") as out:
@@ -73,13 +84,33 @@ def collect(rep: Report, tier: str, wd: str, rng: random.Random, dest: str) -> i
                     if h in seen:
                         continue
                     seen.add(h)
-                    c["id"] = f"{tag}-{n}"
                     c["abis"] = abis
                     c["rev"] = rng.random() < 0.5       # blocks handed over in reverse order
                     c["gap"] = rng.random() < 0.3       # directive-free blocks in between
-                    out.write(json.dumps(c, separators=(",", ":")) + "\n")
+                    c["iseed"] = rng.randrange(1 << 30)
+                    # insertion order of the table entries / protobuf round trip: a case
+                    # with a block that carries directives at >= 2 offsets is run in
+                    # every order (the expectation, CfiRun, knows no insertion order)
+                    if multi_offset(c):
+                        # never ascending only: descending as built, and shuffled (descending
+                        # when there are just two entries) after a protobuf save / load; the
+                        # large small-alphabet set gets one of the two, by the seed
+                        variants = [("", "desc", False),
+                                    (".s", "shuf" if len(c["groups"]) > 2 else "desc", True)]
+                        if tag == "deep":
+                            variants = [("",) + variants[rng.randrange(2)][1:]]
+                        stats["multi_offset_cases"] += 1
+                    else:
+                        variants = [("", "asc", rng.random() < 0.1)]
+                    for suffix, ins, pb in variants:
+                        c["id"] = f"{tag}-{n}{suffix}"
+                        c["ins"] = ins
+                        c["pb"] = pb
+                        stats["order_" + ins] += 1
+                        stats["protobuf_roundtrip"] += int(pb)
+                        out.write(json.dumps(c, separators=(",", ":")) + "\n")
+                        k += 1
                     n += 1
-                    k += 1
             return k
 
         # the generation runs are independent: run them side by side
@@ -140,7 +171,10 @@ def run(prop: str, tier: str, replay: str = None) -> int:
         judge(rep, prop, verdicts, case_by_id)
         rep.rule = ("cases = every state of CfiEval.tla (= every directive sequence up to MaxLen over "
                     "the configured alphabet, valid and invalid, each ending at its first error) plus "
-                    "simulated error-free sequences of 12 tokens; each evaluated under 5 ABIs; "
+                    "simulated error-free sequences of 12 tokens; each evaluated under 5 ABIs; a sequence that "
+                    "puts directives at >= 2 offsets of one block is run with the table entries inserted "
+                    "descending and shuffled (never ascending), the latter after a protobuf save/load "
+                    "(one of the two for the small-alphabet set; the expectation has no insertion order); "
                     "non-trivial = contains a startproc and at least one further token and has a run "
                     "in the domain of a C15 clause; distinct by token sequence")
         rep.assumptions = [
